@@ -16,7 +16,18 @@ type acqInfo struct {
 
 // lockOrder: ORDER engine — while holding A, a call chain acquires B.  Reports self-deadlocks
 // (A→A with a write involved), cycles between distinct classes, and locks held across handler calls.
-func lockOrder(c *Ctx) {
+func lockOrder(c *Ctx, only ...string) {
+	relevant := func(a, b string) bool {
+		if len(only) == 0 {
+			return true
+		}
+		for _, o := range only {
+			if strings.Contains(a, o) || strings.Contains(b, o) {
+				return true
+			}
+		}
+		return false
+	}
 	p := c.P
 	li := p.Locks()
 	memo := map[*ssa.Function][]acqInfo{}
@@ -119,6 +130,9 @@ func lockOrder(c *Ctx) {
 	graph := map[string]map[string]edge{}
 	selfSeen := map[string]bool{}
 	for _, e := range edges {
+		if !relevant(e.from, e.to) {
+			continue
+		}
 		if e.from == e.to {
 			if e.fromM == 'R' && e.toM == 'R' {
 				continue
@@ -207,5 +221,9 @@ func lockOrder(c *Ctx) {
 	if len(selfSeen) == 0 {
 		c.Pass("lock-reentry", "all-lock-classes", "-", "no lock class is re-acquired while held (callbacks resolved through the VTA call graph)")
 	}
-	c.Floor("lock-order-cycle", nEdges, 4, "lock-order edges")
+	floor := 4
+	if len(only) > 0 {
+		floor = 1
+	}
+	c.Floor("lock-order-cycle", nEdges, floor, "lock-order edges")
 }
